@@ -5,6 +5,7 @@ import Jap.Lemmas.StylesParse
 import Jap.Gen.SetDefaultsLoop
 import Jap.Gen.SignatureOptional
 import Jap.Gen.MoveParserRequired
+import Jap.Gen.ArgvItemRoute
 /-!
 # C07 — equivalent ways of declaring a nested group behave identically
 
@@ -348,5 +349,82 @@ example : (∀ it ∈ [ItemR.opt ["g", "n", "x"] false (.str "5"), .opt ["g", "c
     ∧ parseStyle ld0 .dotted "g" dR fldsR [.opt ["g", "n", "x"] false (.str "5"), .opt ["g", "c"] true (.str "5"), .tree [("g", .dict [("n", .dict [("y", .str "q")])])]]
       = .ok [("g", .dict [("a", .int 1), ("n", .dict [("x", .int 5), ("y", .str "q"), ("deep", .dict [("k", .list [.int 2])])]),
                            ("b", .int 7), ("c", .list [.int 3, .int 5])])] := ⟨by decide, rfl⟩
+
+/-! ### command-line items that are not exact option strings (`ActionTypeHint.parse_argv_item`, then argparse's lookup)
+
+`_parse_optional` first asks `parse_argv_item`: an item `--a.b.c` that is no option string goes to the PARENT action
+`_find_parent_action` finds ONLY IF that action carries a type hint (a class- / dict-typed argument owning nested keys); the
+loader `--g` of a group (`_ActionConfigLoad`, present in the dataclass / class / inner-parser styles, absent in the dotted one)
+has none and is ignored.  Then argparse: exact option, else the unique option the item is a prefix of, else unrecognized. -/
+
+inductive Route where
+  | exact (opt : String) | parent (dest : String) | abbrev (opt : String) | ambiguous | unknown
+deriving DecidableEq, Repr
+
+/-- `opts`: the option keys of the parser; `typed`: dests of the actions with a type hint that own nested keys -/
+def routeOpt (opts typed : List String) (k : String) : Route :=
+  if opts.contains k then .exact k
+  else match typed.find? (fun d => (d.toList ++ ['.']).isPrefixOf k.toList) with
+    | some d => .parent d
+    | none =>
+      match opts.filter (fun o => k.toList.isPrefixOf o.toList) with
+      | [o] => .abbrev o
+      | [] => .unknown
+      | _ => .ambiguous
+
+/-- the statements of `parse_argv_item` as audited: the parent found for a dotted item is used only under `if typehint:` -/
+theorem C07_argv_item_source :
+    Jap.Gen.ArgvItemRoute.parseArgvItem =
+      ["0: parser = subclass_arg_parser.get()", "0: action = None", "0: sep = None", "0: if arg_string.startswith('--'):",
+       "1: arg_base, explicit_arg = (arg_string, None)", "1: if '=' in arg_string:",
+       "2: arg_base, sep, explicit_arg = arg_string.partition('=')",
+       "1: if '.' in arg_base and arg_base not in parser._option_string_actions:",
+       "2: action = _find_parent_action(parser, arg_base[2:])", "0: typehint = typehint_from_action(action)", "0: if typehint:",
+       "1: if parse_optional_num_return == 4:", "2: return (action, arg_base, sep, explicit_arg)", "1: else:",
+       "2: if parse_optional_num_return == 1:", "3: return [(action, arg_base, sep, explicit_arg)]",
+       "1: return (action, arg_base, explicit_arg)", "0: return None"] := rfl
+
+/-- a signature-derived member gets `enable_path` (a string value naming an existing file is replaced by the file's content) only as
+    `sub_configs and (class-typed)`: one assignment, one use — the four styles give a list- / str-typed member the same `enable_path=False` -/
+theorem C07_signature_enable_path_source :
+    Jap.Gen.ArgvItemRoute.signatureEnablePath =
+      ["enable_path = sub_configs and (is_subclass_typehint or ActionTypeHint.is_return_subclass_typehint(annotation))",
+       "keyword enable_path=enable_path"] := rfl
+
+/-- **C07_route_same_with_loaders.**  Where an item below the group key goes does not depend on whether the group (and its
+    sub-groups) have loader options: for every option list, every set of typed parents, every list of loader options `ls` none of
+    which the item is a prefix of (a member item `--g.x…` is never a prefix of `--g`; for sub-group loaders this is the generator's
+    proviso), the lookup with the loaders added gives what the lookup without them gives. -/
+theorem C07_route_same_with_loaders (opts typed ls : List String) (k : String)
+    (hl : ∀ l ∈ ls, k.toList.isPrefixOf l.toList = false) :
+    routeOpt (opts ++ ls) typed k = routeOpt opts typed k := by
+  have hnc : ls.contains k = false := by
+    cases hc : ls.contains k with
+    | false => rfl
+    | true =>
+      have hm : k ∈ ls := by simpa using hc
+      have h1 := hl k hm
+      have h2 : k.toList.isPrefixOf k.toList = true := by simp
+      rw [h2] at h1
+      cases h1
+  have hf : ls.filter (fun o => k.toList.isPrefixOf o.toList) = [] := by
+    rw [List.filter_eq_nil_iff]
+    intro l hm
+    simp [hl l hm]
+  unfold routeOpt
+  simp only [List.contains_append, hnc, Bool.or_false, List.filter_append, hf, List.append_nil]
+
+/-- non-vacuity, computed: the four styles of the group `g` with members `count`, `limits`, `tags` (a list: `tags` and `tags+`) -/
+example : routeOpt ["g.count", "g.limits", "g.tags", "g.tags+"] [] "g.coun" = .abbrev "g.count"
+    ∧ routeOpt (["g.count", "g.limits", "g.tags", "g.tags+"] ++ ["g"]) [] "g.coun" = .abbrev "g.count"
+    ∧ routeOpt (["g.count", "g.limits", "g.tags", "g.tags+"] ++ ["g"]) [] "g.zzz" = .unknown
+    ∧ routeOpt (["g.count", "g.limits", "g.tags", "g.tags+"] ++ ["g"]) [] "g.ta" = .ambiguous
+    ∧ routeOpt (["g.count", "g.model"] ++ ["g"]) ["g.model"] "g.model.init_args.x" = .parent "g.model"
+    ∧ (∀ l ∈ ["g"], ("g.coun").toList.isPrefixOf l.toList = false) := by
+  refine ⟨rfl, rfl, rfl, rfl, rfl, ?_⟩
+  intro l hl
+  simp only [List.mem_singleton] at hl
+  subst hl
+  rfl
 
 end Jap.Props.C07
